@@ -113,7 +113,7 @@ def run_cell(mod_name: str, cell: dict) -> dict:
         'discharged_ground': 0, 'discharged_solver': 0, 'violations': [], 'inconclusive': [],
         'native_runs': 0, 'native_vacuous': 0, 'divergences': [], 'samples': [], 'outcomes': {},
         'decisions': 0, 'roundings': 0, 'unknown_feasibility': 0, 'max_gens': 0, 'harness_errors': [],
-        'labels': {},
+        'labels': {}, 'boundary_only': [],
     }
     stats = symx.Stats()
     seen_violation_keys = set()
@@ -230,6 +230,25 @@ def run_cell(mod_name: str, cell: dict) -> dict:
                     if hit or (nat['error'] and not nat['failures'] and ob.label == 'no-unclassified-exception'):
                         confirmed = (w, nat, hit)
                         break
+                if confirmed is None and ctx.eq_decisions > 0 and cex_model is not None:
+                    # measure-zero path (it contains an equality): look at up to 3 more distinct witnesses
+                    for label_m, w in _more_witnesses(ctx, form, cex_model, 3):
+                        nat = run_native(mod, cell, w)
+                        out['native_runs'] += 1
+                        tried.append(label_m)
+                        if nat['vacuous']:
+                            continue
+                        hit = [f for f in nat['failures'] if f[0] == ob.label and f[1] == ob.region]
+                        if hit:
+                            confirmed = (w, nat, hit)
+                            break
+                    if confirmed is None:
+                        out['boundary_only'].append({
+                            'label': ob.label, 'region': ob.region,
+                            'why': 'violated only on a measure-zero path of the real-number model (an exact equality '
+                                   'between inputs); no witness reproduces in floats',
+                            'witness': _witness_json({ctx.names[i]: cex_model[i] for i in range(ctx.ngens)})})
+                        continue
                 if confirmed is not None:
                     w, nat, hit = confirmed
                     add_violation({'label': ob.label, 'region': ob.region, 'detail': ob.detail or ob.cond.text,
@@ -355,6 +374,27 @@ def _robust_candidates(ctx, form, initial):
             m = ctx.extract_model()
             if m is not None:
                 yield (f"margin {float(mu):g}", {ctx.names[i]: m[i] for i in range(ctx.ngens)})
+
+
+def _more_witnesses(ctx, form, first_model, k):
+    """Further models of PC and not(form), each differing from the previous ones in some input."""
+    neg = z3.Not(form_z3(ctx, form))
+    blocks = []
+    models = [first_model]
+    for n in range(k):
+        for m in models[len(blocks):]:
+            blocks.append(z3.Or([ctx.zvars[i] != symx._zq(m[i]) for i in ctx.inputs.values()] or [z3.BoolVal(False)]))
+        try:
+            r = ctx.check(neg, *blocks)
+        except z3.Z3Exception:
+            return
+        if r != z3.sat:
+            return
+        m = ctx.extract_model()
+        if m is None:
+            return
+        models.append(m)
+        yield (f"alt {n + 1}", {ctx.names[i]: m[i] for i in range(ctx.ngens)})
 
 
 def replay(mod_name: str, cell: dict, witness_json: dict) -> dict:
